@@ -85,7 +85,14 @@ SlackGiveUp == /\ Slack /\ ~Requests /\ Is("req") /\ Adv
                   \/ pc = "get" /\ (Visible(target) => Rec[l].fault)
                /\ att' = att + 1 /\ Err("budget")
                /\ UNCHANGED <<env, latestVol, target, prev, cons, stop, faults, hist, histAtStop, window>>
-SilentRequests == SilentSuccess \/ EvReqFail \/ EvReqStutter \/ SlackGiveUp
+(* C18 asks for "a chunk of the next volume in rotation" after an end chunk; that the code continues at the LATEST chunk
+   listed there (NextVolumeTakesLatest) is its choice, not the statement's: under the property reading any visible chunk
+   of the next volume may become the target *)
+SlackListNext == /\ Slack /\ ~Requests /\ pc = "listNext" /\ result = "running" /\ ~NextVolEmpty
+                 /\ \E s \in 1..vis[SuccVol(prev[1])] : target' = <<SuccVol(prev[1]), s>>
+                 /\ pc' = "get" /\ att' = 0
+                 /\ UNCHANGED <<env, latestVol, prev, cons, stop, faults, result, why, hist, histAtStop, window, l>>
+SilentRequests == SilentSuccess \/ EvReqFail \/ EvReqStutter \/ SlackGiveUp \/ SlackListNext
 
 TNext == EvStat \/ EvProbe \/ EvUpload \/ EvStop \/ EvDrop \/ (Requests /\ (EvList \/ EvGet)) \/ EvDeliver \/ EvReturn \/ SilentAlways \/ SilentSendFail \/ SilentRequests
 TSpec == TInit /\ [][TNext]_tvars
